@@ -116,6 +116,8 @@ class Pipeline:
         for s in n.get('sources') or []:
             if isinstance(s, dict):      # {'from': id, 'k': output index, 'suffix': '?;main>x'}
                 srcs.append(self.out_addrs(s['from'])[s.get('k', 0)] + s.get('suffix', ''))
+            elif '://' in s:               # a literal address (e.g. another filter's dedicated metrics output)
+                srcs.append(s)
             else:
                 i = min([s.find(c) for c in '?;!' if c in s] or [len(s)])
                 srcs.append(self.out_addrs(s[:i])[0] + s[i:])
